@@ -244,6 +244,43 @@ func c13Cases() []buildCase {
 			addService(f, service("S", cfgMethod("Get", ".t.v1.Req", ".lib.v1.Shared", "POST", "/x/{id}")))
 			return &Schema{Files: []map[string]any{lib, f}, Generate: []string{"t/v1/t.proto"}}
 		}},
+		buildCase{Name: "cross-package types in every position", Build: func() *Schema {
+			// messages of a sibling Go package as request, response, flattened child and oneof variants: every emitted mention
+			// of such a type has to be import-qualified
+			lib := protoFile("lib/v1/lib.proto", "lib.v1", "example.com/lib/v1;libv1")
+			addMessage(lib, message("Address", field("street", "string"), field("city", "string")))
+			addMessage(lib, message("Text", field("body", "string")))
+			addMessage(lib, message("Img", field("url", "string")))
+			addMessage(lib, message("Ping", field("id", "string")))
+			f := protoFile("t/v1/t.proto", "t.v1", "example.com/t/v1;tv1")
+			f["dependency"] = []any{"lib/v1/lib.proto", "google/protobuf/empty.proto"}
+			addMessage(f, message("Req", field("id", "string")))
+			addMessage(f, message("Person", field("name", "string"), withOpt(withOpt(msgField("home", ".lib.v1.Address"), "sebuf.http.flatten", true), "sebuf.http.flatten_prefix", "home_")))
+			m := message("Ev", field("id", "string"), msgField("text", ".lib.v1.Text"), msgField("img", ".lib.v1.Img"))
+			fs := m["field"].([]any)
+			fs[1].(M)["oneof_index"], fs[2].(M)["oneof_index"] = 0, 0
+			m["oneof_decl"] = []any{M{"name": "content", "options": M{"[sebuf.http.oneof_config]": M{"discriminator": "type", "flatten": true}}}}
+			addMessage(f, m)
+			n := message("Note", field("id", "string"), msgField("text", ".lib.v1.Text"), msgField("img", ".lib.v1.Img"))
+			nfs := n["field"].([]any)
+			nfs[1].(M)["oneof_index"], nfs[2].(M)["oneof_index"] = 0, 0
+			n["oneof_decl"] = []any{M{"name": "content", "options": M{"[sebuf.http.oneof_config]": M{"discriminator": "kind"}}}}
+			addMessage(f, n)
+			addMessage(f, message("Tags", withOpt(repeated(field("values", "string")), "sebuf.http.unwrap", true)))
+			addMessage(f, message("Places", withOpt(repeated(msgField("items", ".lib.v1.Address")), "sebuf.http.unwrap", true)))
+			idx := message("Index", msgField("origin", ".lib.v1.Address"), repeated(msgField("stops", ".lib.v1.Address")))
+			addMapField("t.v1", idx, "by_key", msgField("value", ".t.v1.Tags"), 3)
+			addMapField("t.v1", idx, "by_town", msgField("value", ".t.v1.Places"), 4)
+			addMessage(f, idx)
+			addService(f, service("S",
+				cfgMethod("GetIndex", ".t.v1.Req", ".t.v1.Index", "GET", "/i/{id}"),
+				cfgMethod("GetPerson", ".t.v1.Req", ".t.v1.Person", "GET", "/p/{id}"),
+				cfgMethod("GetEv", ".t.v1.Req", ".t.v1.Ev", "GET", "/e/{id}"),
+				cfgMethod("GetNote", ".t.v1.Req", ".t.v1.Note", "GET", "/n/{id}"),
+				cfgMethod("Ping", ".lib.v1.Ping", ".google.protobuf.Empty", "POST", "/ping"),
+				cfgMethod("Del", ".t.v1.Req", ".google.protobuf.Empty", "DELETE", "/p/{id}")))
+			return &Schema{Files: []map[string]any{lib, f}, Generate: []string{"t/v1/t.proto"}}
+		}},
 	)
 	return cases
 }
